@@ -31,6 +31,12 @@ def split_classes(events, maxlen=4000):
 def validate(ck, real):
     thorough = ck.tier == "thorough"
     traces = list(ck.extra.pop("_replay_traces", []))
+    # one TLC run validates all traces; keep it bounded (a deterministic stride over the replay traces, all repository-test chunks)
+    cap = 60000
+    if len(traces) > cap:
+        stride = -(-len(traces) // cap)
+        ck.extra["replay_traces_recorded"] = len(traces)
+        traces = traces[::stride]
     n_replay = len(traces)
     events, summary = record.record_tests(REPO_TESTS_THOROUGH if thorough else REPO_TESTS_QUICK, "C20/rec")
     sev = [e for e in events if e["ev"].startswith("s_")]
@@ -39,7 +45,7 @@ def validate(ck, real):
     classes = sorted(set(e["cls"] for e in sev))
     chunks = split_classes(sev)
     traces += chunks
-    res, verdicts = tracecheck.validate("SettingsTrace", "SettingsTrace.cfg", traces, "C20/trace", workers=8)
+    res, verdicts = tracecheck.validate("SettingsTrace", "SettingsTrace.cfg", traces, "C20/trace", workers=8, timeout=3600)
     ck.add_tlc(res, "SettingsTrace")
     ck.traces_validated += len(traces)
     nbad = skipped = 0
